@@ -293,7 +293,7 @@ impl ElfSection<'_> {
     /// This is the same as doing `section.start_address() + section.size()`
     #[must_use]
     pub fn end_address(&self) -> u64 {
-        self.get().addr() + self.get().size()
+        self.get().addr().saturating_add(self.get().size())
     }
 
     /// Get the section's size in bytes.
